@@ -208,5 +208,103 @@ impl<T: ToRaw> Hashed<T> {
 //@end
 }
 
+// ---- evaluation wrappers: EvaluatedTxOut::eval_script, EvaluatedTx::new, From<RawTx>, Block::new -------------------
+/// script::eval_from_bytes: its contract (type and address of every byte string) is proved in units script_btc /
+/// script_custom; here only "the script evaluated is this output's script_pubkey, with this coin's version byte" matters
+pub uninterp spec fn eval_spec(script_pubkey: Seq<u8>, version_id: u8) -> EvaluatedScript;
+#[verifier::external_body]
+pub fn eval_from_bytes(bytes: &[u8], version_id: u8) -> (r: EvaluatedScript) ensures r == eval_spec(bytes@, version_id) { unimplemented!() }
+
+pub open spec fn evaluated_out(o: TxOutput, version_id: u8) -> EvaluatedTxOut {
+    EvaluatedTxOut { script: eval_spec(o.script_pubkey@, version_id), out: o }
+}
+/// the evaluated form of a raw transaction: every field kept, every output wrapped with the evaluation of its own script
+pub open spec fn is_evaluated(e: EvaluatedTx, t: RawTx) -> bool {
+    &&& e.version == t.version && e.in_count == t.in_count && e.inputs == t.inputs && e.out_count == t.out_count && e.locktime == t.locktime
+    &&& e.outputs@.len() == t.outputs@.len()
+    &&& forall|k: int| 0 <= k < t.outputs@.len() ==> #[trigger] e.outputs@[k] == evaluated_out(t.outputs@[k], t.version_id)
+}
+pub proof fn lemma_eouts_eq_outs(e: Seq<EvaluatedTxOut>, o: Seq<TxOutput>, n: int)
+    requires 0 <= n <= o.len(), n <= e.len(), forall|k: int| 0 <= k < n ==> (#[trigger] e[k]).out == o[k],
+    ensures eouts_wire(e, n) == outs_wire(o, n),
+    decreases n
+{ if n > 0 { lemma_eouts_eq_outs(e, o, n - 1); } }
+/// the txid pre-image of the evaluated transaction is the witness-stripped wire form of the raw one
+pub proof fn lemma_etx_wire(e: EvaluatedTx, t: RawTx)
+    requires is_evaluated(e, t),
+    ensures etx_wire(e) == tx_wire_nowit(t),
+{
+    assert forall|k: int| 0 <= k < t.outputs@.len() implies (#[trigger] e.outputs@[k]).out == t.outputs@[k] by { }
+    lemma_eouts_eq_outs(e.outputs@, t.outputs@, t.outputs@.len() as int);
+}
+
+impl EvaluatedTxOut {
+//@extract fn src/blockchain/proto/tx.rs :: impl EvaluatedTxOut :: eval_script
+//@spec
+        ensures
+            //# C01,C05,C06:output_keeps_its_fields_and_is_typed_by_its_own_script
+            r == evaluated_out(out, version_id),
+//@end
+}
+impl EvaluatedTx {
+//@extract fn src/blockchain/proto/tx.rs :: impl EvaluatedTx :: new
+//@idiom I29 `.into_par_iter()` => `Vec<EvaluatedTxOut>`
+//--pre
+        let ghost outs0 = xs__@;
+//--inv
+            invariant
+                it__.seq() == outs0, v__@.len() == it__.index@,
+                //# C01:outputs_evaluated_in_order_each_from_its_own_script
+                forall|k: int| 0 <= k < v__@.len() ==> #[trigger] v__@[k] == evaluated_out(outs0[k], version_id),
+//@spec
+        ensures
+            //# C01:evaluated_tx_keeps_every_field_of_the_raw_one
+            is_evaluated(r, RawTx { version, in_count, inputs, out_count, outputs, locktime, version_id }),
+//@end
+}
+impl vstd::std_specs::convert::FromSpecImpl<RawTx> for EvaluatedTx { open spec fn obeys_from_spec() -> bool { false } open spec fn from_spec(v: RawTx) -> Self { arbitrary() } }
+impl From<RawTx> for EvaluatedTx {
+//@extract fn src/blockchain/proto/tx.rs :: impl From<RawTx> for EvaluatedTx :: from
+//@vis none
+//@spec
+        ensures is_evaluated(r, tx),
+//@end
+}
+
+pub open spec fn raw_tx_pre(t: RawTx) -> bool {
+    &&& t.in_count.value + t.out_count.value + 8 <= u64::MAX
+    &&& forall|k: int| 0 <= k < t.inputs@.len() ==> (#[trigger] t.inputs@[k]).script_len.value <= u32::MAX
+    &&& forall|k: int| 0 <= k < t.outputs@.len() ==> (#[trigger] t.outputs@[k]).script_len.value <= u32::MAX
+}
+impl Block {
+//@extract fn src/blockchain/proto/block.rs :: impl Block :: new
+//@idiom I29 `.into_par_iter()` => `Vec<Hashed<EvaluatedTx>>`
+//--pre
+        let ghost txs0 = xs__@;
+//--inv
+            invariant
+                it__.seq() == txs0, v__@.len() == it__.index@,
+                forall|k: int| 0 <= k < txs0.len() ==> raw_tx_pre(#[trigger] txs0[k]),
+                //# C01:transactions_hashed_in_block_order_each_over_its_witness_stripped_form
+                forall|k: int| 0 <= k < v__@.len() ==> is_evaluated((#[trigger] v__@[k]).value, txs0[k]) && v__@[k].hash.0@ == sha256d_spec(tx_wire_nowit(txs0[k])),
+//--top
+            let ghost raw0 = raw;
+            proof { assert(raw_tx_pre(txs0[it__.index@ as int])); }
+//--body
+            proof { lemma_etx_wire(y__.value, raw0); }
+//@spec
+        requires
+            //# pre:script_lengths_fit_u32   (unit reader: scripts are read through a u32 length)
+            forall|k: int| 0 <= k < txs@.len() ==> raw_tx_pre(#[trigger] txs@[k]),
+        ensures
+            r.size == size, r.header.value == header, r.aux_pow_extension == aux_pow_extension, r.tx_count == tx_count,
+            //# C01,C12:block_hash_is_sha256d_of_the_80_header_bytes
+            r.header.hash.0@ == sha256d_spec(hdr_wire(header)),
+            r.txs@.len() == txs@.len(),
+            //# C01:txid_is_sha256d_of_the_witness_stripped_transaction
+            forall|i: int| 0 <= i < txs@.len() ==> (#[trigger] r.txs@[i]).hash.0@ == sha256d_spec(tx_wire_nowit(txs@[i])) && is_evaluated(r.txs@[i].value, txs@[i]),
+//@end
+}
+
 } // verus!
 fn main() {}
